@@ -153,7 +153,7 @@ func genBlast(r *hx.Rand, cfg childCfg, thorough bool) []*conv {
 	// byte mutations of one request after a valid prefix, then a trailing probe
 	nmut := 60
 	if thorough {
-		nmut = 3000
+		nmut = 1500
 	}
 	for i := 0; i < nmut; i++ {
 		k := hx.Pick(r, kinds...)
@@ -174,7 +174,7 @@ func genBlast(r *hx.Rand, cfg childCfg, thorough bool) []*conv {
 	// frames in any state
 	nfr := 24
 	if thorough {
-		nfr = 600
+		nfr = 300
 	}
 	for i := 0; i < nfr; i++ {
 		k := hx.Pick(r, kinds...)
